@@ -63,6 +63,7 @@ type Exec struct {
 	assumedExtern map[string]int // extern contracts/models used
 	inlined       map[string]int
 	havocAllCount int
+	havocEvents   []func(string) bool // one entry per whole-state havoc: which heaps it kept (nil: none)
 	unsupported   []string
 	curPos        token.Pos
 	curPC         *Term
@@ -569,6 +570,24 @@ func (x *Exec) runLoop(fr *Frame, L *Loop, ins []edge) []edge {
 			spec = c.Loops[L.Ordinal]
 		}
 	}
+	// `loop * invariant`: invariants common to every loop of the function
+	var con0 *Contract
+	if fr.depth > 0 {
+		con0 = x.prog.Cons.ByKey[funcKey(fr.fn)]
+	} else {
+		con0 = fr.con
+	}
+	if con0 != nil && con0.Loops != nil {
+		if all := con0.Loops[-1]; all != nil && len(all.Invariants) > 0 {
+			merged := &LoopSpec{}
+			if spec != nil {
+				*merged = *spec
+				merged.Invariants = append([]*Clause{}, spec.Invariants...)
+			}
+			merged.Invariants = append(merged.Invariants, all.Invariants...)
+			spec = merged
+		}
+	}
 	unroll := spec != nil && spec.Unroll
 	if spec == nil || (len(spec.Invariants) == 0 && !unroll) {
 		if x.autoUnrollable(L) {
@@ -811,9 +830,9 @@ func (x *Exec) runLoopInv(fr *Frame, L *Loop, ins []edge, spec *LoopSpec) []edge
 		}
 	}
 	dry.clk = x.advanceClk(dry)
-	dryHavocAll := x.havocAllCount
+	dryHavocAll := len(x.havocEvents)
 	x.runRegionFromHeader(fr, L, dry)
-	sawHavocAll := x.havocAllCount != dryHavocAll
+	dryEvents := append([]func(string) bool{}, x.havocEvents[dryHavocAll:]...)
 	x.recorders = x.recorders[:len(x.recorders)-1]
 	x.noWriteCheck--
 	x.quiet = savedQuiet
@@ -849,9 +868,9 @@ func (x *Exec) runLoopInv(fr *Frame, L *Loop, ins []edge, spec *LoopSpec) []edge
 			points[w.heap] = append(points[w.heap], w.idx)
 		}
 	}
-	if sawHavocAll {
+	for _, keep := range dryEvents {
 		for _, n := range x.allHeapNames(st) {
-			if !strings.HasPrefix(n, "L$") {
+			if !strings.HasPrefix(n, "L$") && (keep == nil || !keep(n)) {
 				whole[n] = true
 			}
 		}
@@ -1069,6 +1088,8 @@ func (x *Exec) finish(fr *Frame) {
 			// writes and callee effects were checked where they happen (write-ok / call-effects obligations)
 		} else if con.HasModifies && !con.ModAll {
 			x.checkFrame(fr, rs.st)
+		} else if con.ModAll && len(con.Preserves) > 0 {
+			x.checkPreserves(fr, rs.st)
 		}
 		if fr.depth == 0 {
 			x.refinesPost(fr, rs.st, rs.vals, false)
